@@ -1,0 +1,57 @@
+//go:build verif
+
+package bpmn
+
+import (
+	"context"
+	"fmt"
+	"sync"
+	"sync/atomic"
+	"time"
+)
+
+// VerifEventGatewayRace lets, `rounds` times, a token reach the event-based gateway `node` and then
+// has every alternative's token pass its catch event's action through the transformer the gateway
+// handed out — all at the same moment, from goroutines released together, exactly as flow.Start
+// does when the alternatives' events are delivered simultaneously. It returns the number of rounds
+// in which the number of alternatives that continued was not one.
+func VerifEventGatewayRace(ctx context.Context, node IFlowNode, rounds int) (bad int, err error) {
+	if _, ok := node.(*eventBasedGateway); !ok {
+		return 0, fmt.Errorf("not an event-based gateway: %T", node)
+	}
+	for r := 0; r < rounds; r++ {
+		var action flowAction
+		select {
+		case a := <-node.NextAction(ctx, nil):
+			fa, ok := a.(flowAction)
+			if !ok {
+				return bad, fmt.Errorf("unexpected action %T", a)
+			}
+			action = fa
+		case <-time.After(5 * time.Second):
+			return bad, fmt.Errorf("gateway did not answer")
+		}
+		n := int32(len(action.sequenceFlows))
+		var ready, wins int32
+		var wg sync.WaitGroup
+		for i := range action.sequenceFlows {
+			id, _ := action.sequenceFlows[i].Id()
+			_ = action.terminate(id) // the token has taken its termination channel, as on entering its select
+			wg.Add(1)
+			go func() {
+				defer wg.Done()
+				atomic.AddInt32(&ready, 1)
+				for atomic.LoadInt32(&ready) < n {
+				}
+				if _, ok := action.actionTransformer(id, flowAction{}).(flowAction); ok {
+					atomic.AddInt32(&wins, 1)
+				}
+			}()
+		}
+		wg.Wait()
+		if wins != 1 {
+			bad++
+		}
+	}
+	return bad, nil
+}
